@@ -214,7 +214,7 @@ func (f *FuncCtx) specIdent(name string, env *Env) (Val, bool) {
 			for _, alt := range f.C.Alias[name] {
 				if strings.ContainsAny(alt, "$([") {
 					// the recorded loop variable read through the loop (ranged expression at the iteration ghost)
-					if e, err := parseSpec(renameText(alt, f.C.renameMap)); err == nil {
+					if e, err := parseSpec(alt); err == nil {
 						return f.specExpr(e, env), true
 					}
 					continue
